@@ -124,3 +124,84 @@ def guarded_values(fn: loader.Func, name: str):
         else:
             out.append((None, None, n.value))
     return out
+
+
+# -- derived mappings ------------------------------------------------------------------------------------------------------
+
+class _Ren(ast.NodeTransformer):
+    def __init__(self, ren):
+        self.ren = ren
+
+    def visit_Name(self, node):
+        if node.id in self.ren:
+            return copy.deepcopy(self.ren[node.id]) if isinstance(self.ren[node.id], ast.AST) else ast.copy_location(ast.Name(id=self.ren[node.id], ctx=node.ctx), node)
+        return node
+
+
+def _subst(e: ast.AST, ren) -> ast.AST:
+    return _Ren(ren).visit(copy.deepcopy(e))
+
+
+def derived_map(fn: loader.Func, name: str, depth: int = 0):
+    """A local dict ``name`` built entry-by-entry from another mapping, in either of the two idioms
+
+        name = {K: V for k, v in BASE.items() if F}                      (comprehension)
+        name = {} ; for k, v in BASE.items(): [t = E ...] ; if F: name[K] = V      (loop)
+
+    returned as ``(base, key, value, [filters])`` where key/value/filters are canonical texts over ``KEY_`` / ``VAL_`` (the base's key
+    and value) with loop-local temporaries expanded; when BASE is itself such a derived local the two are composed.  None when the
+    construction is anything else."""
+    if depth > 3:
+        return None
+    K, V = ast.Name(id="KEY_", ctx=ast.Load()), ast.Name(id="VAL_", ctx=ast.Load())
+    found = None
+    ds = [d for d in defs(fn).get(name, []) if not (isinstance(d, ast.Dict) and not d.keys) and not (isinstance(d, ast.Call) and canon(d) == "dict()")]
+    comp = [d for d in ds if isinstance(d, ast.DictComp)]
+    if len(ds) == 1 and comp and len(comp[0].generators) == 1:
+        g = comp[0].generators[0]
+        if isinstance(g.target, ast.Tuple) and len(g.target.elts) == 2 and all(isinstance(e, ast.Name) for e in g.target.elts) \
+                and isinstance(g.iter, ast.Call) and isinstance(g.iter.func, ast.Attribute) and g.iter.func.attr == "items":
+            ren = {g.target.elts[0].id: K, g.target.elts[1].id: V}
+            found = (g.iter.func.value, _subst(expand(fn, comp[0].key), ren), _subst(expand(fn, comp[0].value), ren),
+                     [_subst(expand(fn, i), ren) for i in g.ifs])
+    elif not ds:
+        # loop idiom: the only stores into name[...] sit in one for-loop over BASE.items()
+        sts = [s for s in A.stores(fn) if isinstance(s.target, ast.Subscript) and A.dotted(s.target.value) == name and isinstance(s.node, ast.Assign)]
+        if len(sts) == 1:
+            st = sts[0]
+            loop = next((a for a in A.ancestors(st.stmt) if isinstance(a, ast.For)), None)
+            if loop is not None and isinstance(loop.target, ast.Tuple) and len(loop.target.elts) == 2 and all(isinstance(e, ast.Name) for e in loop.target.elts) \
+                    and isinstance(loop.iter, ast.Call) and isinstance(loop.iter.func, ast.Attribute) and loop.iter.func.attr == "items" and not loop.orelse:
+                ren = {loop.target.elts[0].id: K, loop.target.elts[1].id: V}
+                filters = []
+                cur = st.stmt
+                ok = True
+                for a in A.ancestors(st.stmt):
+                    if a is loop:
+                        break
+                    if isinstance(a, ast.If):
+                        t = expand(fn, a.test)
+                        filters.append(t if cur in a.body or any(A.is_within(cur, b) for b in a.body) else ast.UnaryOp(op=ast.Not(), operand=t))
+                    elif not isinstance(a, ast.For):
+                        ok = False
+                    cur = a
+                # nothing in the loop may leave it early
+                if any(isinstance(x, (ast.Break, ast.Continue, ast.Return)) for x in ast.walk(loop)):
+                    ok = False
+                if ok:
+                    found = (loop.iter.func.value, _subst(expand(fn, st.target.slice), ren), _subst(expand(fn, st.node.value), ren),
+                             [_subst(f, ren) for f in reversed(filters)])
+    if found is None:
+        return None
+    base, key, value, filters = found
+    base = expand(fn, base) if not isinstance(base, ast.Name) else base
+    if isinstance(base, ast.Name) and base.id not in fn.params:
+        inner = derived_map(fn, base.id, depth + 1)
+        if inner is not None:
+            ibase, ikey, ivalue, ifilters = inner
+            if ikey != "KEY_":
+                return None
+            iv = ast.parse(ivalue, mode="eval").body if isinstance(ivalue, str) else ivalue
+            ren = {"VAL_": iv}
+            return (ibase, canon(_subst(key, ren)), canon(_subst(value, ren)), list(ifilters) + [canon(_subst(f, ren)) for f in filters])
+    return (canon(base), canon(key), canon(value), [canon(f) for f in filters])
